@@ -100,6 +100,8 @@ fn main() {
         #[cfg(feature = "easy")]
         "file" => easystream::stream_file(&mut out, seed),
         #[cfg(feature = "easy")]
+        "hugestream" => easystream::stream_hugestream(&mut out),
+        #[cfg(feature = "easy")]
         "lie" => easystream::stream_lie(&mut out),
         #[cfg(feature = "easy")]
         "lie-child" => { easystream::lie_child(seed as usize, budget); return; }
